@@ -1242,6 +1242,8 @@ int QSexact_basis_dualstatus(
 	mpq_ILLfct_compute_piz (p_mpq->lp); 
 	mpq_ILLfct_compute_dz (p_mpq->lp);
 	mpq_ILLfct_compute_dobj(p_mpq->lp); 
+	/* only the dual side is examined here; -1 is none of the primal codes */
+	fi.pstatus = -1;
 	mpq_ILLfct_check_dfeasible (p_mpq->lp, &fi, mpq_zeroLpNum);
 	mpq_ILLfct_set_status_values (p_mpq->lp, fi.pstatus, fi.dstatus, PHASEII, PHASEII);
 
